@@ -114,7 +114,11 @@ func VH_C02_ReadBack() {
 	st := vhStore("dir")
 	conf := vhConf(st)
 	w := vhNewWorld(conf, 1)
+	// a zero-length blob, pushed and acknowledged like any other
+	dEmpty, cEmpty := vhPushBlob(w.s, "a", []byte{})
+	vh.Assert(cEmpty == 201, "C02.setup")
 	items := []vhItem{
+		{"a", dEmpty.String(), []byte{}, dEmpty, ""},
 		{"a", w.dConf.String(), w.conf, w.dConf, ""},
 		{"a", w.dLayer.String(), w.layer, w.dLayer, ""},
 		{"a", w.dImg1.String(), w.img1, w.dImg1, types.MediaTypeOCI1Manifest},
